@@ -7,7 +7,9 @@ use nexrad_decode::messages::digital_radar_data::{
 };
 use nexrad_model::data::{MomentData, MomentValue};
 
-fn block(scale: f32, offset: f32, raw: u8) -> GenericDataBlock {
+fn block(scale: f32, offset: f32, raw: u16) -> GenericDataBlock {
+    // raw < 256 travels as an 8-bit gate, anything larger as a 16-bit big-endian gate
+    let (word, data) = if raw < 256 { (8u8, vec![raw as u8]) } else { (16u8, vec![(raw >> 8) as u8, raw as u8]) };
     GenericDataBlock {
         header: GenericDataBlockHeader {
             data_block_id: DataBlockId { data_block_type: b'D', data_name: *b"REF" },
@@ -18,11 +20,11 @@ fn block(scale: f32, offset: f32, raw: u8) -> GenericDataBlock {
             tover: 0,
             snr_threshold: 0,
             control_flags: 0,
-            data_word_size: 8,
+            data_word_size: word,
             scale,
             offset,
         },
-        encoded_data: vec![raw],
+        encoded_data: data,
     }
 }
 
@@ -40,10 +42,10 @@ fn z_c07() {
         if p.len() != 3 {
             continue;
         }
-        let (sb, ob, raw): (u32, u32, u8) = (p[0].parse().unwrap(), p[1].parse().unwrap(), p[2].parse().unwrap());
+        let (sb, ob, raw): (u32, u32, u16) = (p[0].parse().unwrap(), p[1].parse().unwrap(), p[2].parse().unwrap());
         let b = block(f32::from_bits(sb), f32::from_bits(ob), raw);
         let d = b.decoded_values();
-        let m = MomentData::from_fixed_point(f32::from_bits(sb), f32::from_bits(ob), vec![raw]).values();
+        let m = b.moment_data().values();
         assert_eq!(d.len(), 1);
         assert_eq!(m.len(), 1);
         let (dt, dp) = match d[0] {
